@@ -9,6 +9,10 @@ type nat =
 
 val snd : ('a1 * 'a2) -> 'a2
 
+val length : 'a1 list -> nat
+
+val app : 'a1 list -> 'a1 list -> 'a1 list
+
 type comparison =
 | Eq
 | Lt
@@ -62,6 +66,15 @@ type z =
 | Zpos of positive
 | Zneg of positive
 
+module Nat :
+ sig
+  val leb : nat -> nat -> bool
+
+  val ltb : nat -> nat -> bool
+
+  val div2 : nat -> nat
+ end
+
 module Pos :
  sig
   type mask =
@@ -100,6 +113,8 @@ module Coq_Pos :
   val mul : positive -> positive -> positive
 
   val iter : ('a1 -> 'a1) -> 'a1 -> positive -> 'a1
+
+  val pow : positive -> positive -> positive
 
   val size_nat : positive -> nat
 
@@ -141,9 +156,31 @@ val ascii_of_N : n -> char
 
 val ascii_of_nat : nat -> char
 
+val hd_error : 'a1 list -> 'a1 option
+
+val nth_error : 'a1 list -> nat -> 'a1 option
+
+val rev0 : 'a1 list -> 'a1 list
+
+val concat : 'a1 list list -> 'a1 list
+
+val map : ('a1 -> 'a2) -> 'a1 list -> 'a2 list
+
+val flat_map : ('a1 -> 'a2 list) -> 'a1 list -> 'a2 list
+
 val fold_left : ('a1 -> 'a2 -> 'a1) -> 'a2 list -> 'a1 -> 'a1
 
+val fold_right : ('a2 -> 'a1 -> 'a1) -> 'a1 -> 'a2 list -> 'a1
+
 val existsb : ('a1 -> bool) -> 'a1 list -> bool
+
+val filter : ('a1 -> bool) -> 'a1 list -> 'a1 list
+
+val find : ('a1 -> bool) -> 'a1 list -> 'a1 option
+
+val firstn : nat -> 'a1 list -> 'a1 list
+
+val skipn : nat -> 'a1 list -> 'a1 list
 
 module Z :
  sig
@@ -181,6 +218,8 @@ module Z :
 
   val to_nat : z -> nat
 
+  val of_nat : nat -> z
+
   val to_pos : z -> positive
 
   val to_int : z -> signed_int
@@ -198,7 +237,7 @@ module Z :
 
 val zeq_bool : z -> z -> bool
 
-val length : string -> nat
+val length0 : string -> nat
 
 type q = { qnum : z; qden : positive }
 
@@ -461,6 +500,538 @@ val rational_str : z -> q -> string
 
 val rational : z -> arith
 
+val run_asc : ('a1 -> 'a1 -> bool) -> 'a1 -> 'a1 list -> nat
+
+val run_desc : ('a1 -> 'a1 -> bool) -> 'a1 -> 'a1 list -> nat
+
+val bsearch :
+  ('a1 -> 'a1 -> bool) -> nat -> 'a1 list -> 'a1 -> nat -> nat -> nat
+
+val insert_at : 'a1 list -> nat -> 'a1 -> 'a1 list
+
+val binsort : ('a1 -> 'a1 -> bool) -> 'a1 list -> 'a1 list -> 'a1 list
+
+val py_sort : ('a1 -> 'a1 -> bool) -> 'a1 list -> 'a1 list
+
+val py_sorted : ('a1 -> 'a1 -> bool) -> bool -> 'a1 list -> 'a1 list
+
+type ctl =
+| Next
+| Brk
+| Cont
+| Abort
+
+type 'st cmd =
+| Do of ('st -> 'st)
+| Seq of 'st cmd * 'st cmd
+| Ite of ('st -> bool) * 'st cmd * 'st cmd
+| While of ('st -> bool) * 'st cmd
+| Break
+| Continue
+| Skip
+
+val iter_once :
+  ('a1 -> ('a1 * ctl) option) -> ('a1 -> bool) -> 'a1 -> (('a1 * bool) * ctl)
+  option
+
+val loopP :
+  ('a1 -> ('a1 * ctl) option) -> ('a1 -> bool) -> positive -> 'a1 ->
+  (('a1 * bool) * ctl) option
+
+val exec : ('a1 -> bool) -> positive -> 'a1 cmd -> 'a1 -> ('a1 * ctl) option
+
+type cstate =
+| Hopeful
+| Elected
+| Defeated
+| Withdrawn
+
+val cstate_eqb : cstate -> cstate -> bool
+
+type meth =
+| MWigm
+| MMeek
+| MQpq
+
+type tag =
+| TBegin
+| TCount
+| TLog
+| TRound
+| TTie
+| TElect
+| TDefeat
+| TIterate
+| TUnpend
+| TTransfer
+| TEnd
+
+type cand = { cid : z; corder : z; ctie : z; cname : string; cnick : 
+              string; cundecl : bool; cst : cstate; cpend : bool option;
+              cvote : t; ckf : t option; cquo : t option; ctc : t }
+
+val with_st : arith -> cand -> cstate -> bool option -> cand
+
+val with_vote : arith -> cand -> t -> cand
+
+val with_kf : arith -> cand -> t option -> cand
+
+val with_quo : arith -> cand -> t option -> cand
+
+val with_tc : arith -> cand -> t -> cand
+
+type ballot = { bmult : t; bidx : nat; bweight : t; bres : t; brank : z list }
+
+val with_bidx : arith -> ballot -> nat -> ballot
+
+val with_bweight : arith -> ballot -> t -> ballot
+
+val with_bres : arith -> ballot -> t -> ballot
+
+type eballot = { emult : t; eres : t; erank : z list list }
+
+type csnap = { sn_cid : z; sn_st : cstate; sn_pend : bool option;
+               sn_vote : t; sn_kf : t option; sn_quo : t option }
+
+type asnap = { as_c : csnap list; as_votes : t; as_quota : t;
+               as_nt : t option; as_surplus : t option;
+               as_ballots : (nat * t) list }
+
+type action = { a_tag : tag; a_msg : string; a_round : z;
+                a_snap : asnap option }
+
+type est = { cands : cand list; ballots : ballot list;
+             eballots : eballot list; quota : t; surplus : t; votes : 
+             t; exhausted : t; residual : t; round : z;
+             rounds : cand list list; actions : action list;
+             crash : exn option; lv_flag : bool; lv_last : t; lv_status : 
+             z; lv_batch : z list; lv_tx : t; lv_va : t }
+
+val set_cands : arith -> est -> cand list -> est
+
+val set_ballots : arith -> est -> ballot list -> est
+
+val set_eballots : arith -> est -> eballot list -> est
+
+val set_quota : arith -> est -> t -> est
+
+val set_surplus : arith -> est -> t -> est
+
+val set_votes : arith -> est -> t -> est
+
+val set_exhausted : arith -> est -> t -> est
+
+val set_residual : arith -> est -> t -> est
+
+val set_round : arith -> est -> z -> est
+
+val set_rounds : arith -> est -> cand list list -> est
+
+val set_actions : arith -> est -> action list -> est
+
+val set_crash : arith -> est -> exn -> est
+
+val set_flag : arith -> est -> bool -> est
+
+val set_last : arith -> est -> t -> est
+
+val set_status : arith -> est -> z -> est
+
+val set_batch : arith -> est -> z list -> est
+
+val set_txva : arith -> est -> t -> t -> est
+
+val crashed : arith -> est -> bool
+
+val in_state : arith -> cstate -> cand -> bool
+
+val is_pending : arith -> cand -> bool
+
+val hopefuls : arith -> est -> cand list
+
+val electeds : arith -> est -> cand list
+
+val defeateds : arith -> est -> cand list
+
+val withdrawns : arith -> est -> cand list
+
+val eligibles : arith -> est -> cand list
+
+val pendings : arith -> est -> cand list
+
+val nlen : 'a1 list -> z
+
+val find_cand : arith -> cand list -> z -> cand option
+
+val upd_cand : arith -> z -> (cand -> cand) -> cand list -> cand list
+
+val upd : arith -> est -> z -> (cand -> cand) -> est
+
+val vote_key_lt : arith -> cand -> cand -> bool
+
+val by_vote : arith -> bool -> cand list -> cand list
+
+val by_tie : arith -> cand list -> cand list
+
+val by_order : arith -> cand list -> cand list
+
+val vsum : arith -> t list -> t
+
+val top_rank : arith -> ballot -> z option
+
+val b_exhausted : arith -> ballot -> bool
+
+val bvote : arith -> ballot -> t
+
+type config = { cf_rule : string; cf_method : meth; cf_nseats : z;
+                cf_nballots : z; cf_integer_quota : bool;
+                cf_batch_zero : bool; cf_batch : bool; cf_warren : bool;
+                cf_omega10 : z }
+
+val v0 : arith -> t
+
+val v1 : arith -> t
+
+val seats_left : arith -> config -> est -> z
+
+val csnap_of : arith -> cand -> csnap
+
+val snap_of : arith -> config -> est -> asnap
+
+val is_log : tag -> bool
+
+val is_round : tag -> bool
+
+val log_action : arith -> config -> tag -> string -> est -> est
+
+val log_msg : arith -> config -> string -> est -> est
+
+val new_round : arith -> config -> est -> est
+
+val elect : arith -> config -> z -> string -> bool -> est -> est
+
+val elect_default : arith -> config -> z -> bool -> est -> est
+
+val defeat : arith -> config -> z -> string -> est -> est
+
+val unpend : arith -> config -> z -> string option -> est -> est
+
+val unelect : arith -> z -> est -> est
+
+val set_vote : arith -> z -> t -> est -> est
+
+val add_vote : arith -> z -> t -> est -> est
+
+val cvote_of : arith -> est -> z -> t
+
+val cname_of : arith -> est -> z -> string
+
+val join : string -> string list -> string
+
+val names : arith -> cand list -> string
+
+val break_tie :
+  arith -> config -> (string -> string -> string) -> cand list -> est ->
+  est * z option
+
+val tie_fmt : string -> string -> string -> string
+
+val max_vote : arith -> cand list -> t option
+
+val min_vote : arith -> cand list -> t option
+
+val advance_from : (z -> bool) -> z list -> nat -> nat
+
+val cont_pred : arith -> (cand -> bool) -> est -> z -> bool
+
+val transfer : arith -> (cand -> bool) -> est -> ballot -> est * ballot
+
+val process_ballots :
+  arith -> (est -> ballot -> est * ballot) -> (ballot -> bool) -> ballot list
+  -> est -> ballot list -> est * ballot list
+
+val for_ballots :
+  arith -> (est -> ballot -> est * ballot) -> (ballot -> bool) -> est -> est
+
+val top_is : arith -> z -> ballot -> bool
+
+val top_in : arith -> z list -> ballot -> bool
+
+val reweigh_transfer :
+  arith -> (cand -> bool) -> (t -> t -> t -> t res) -> z -> t -> est ->
+  ballot -> est * ballot
+
+val rew_wigm : arith -> t -> t -> t -> t res
+
+val rew_scot : arith -> t -> t -> t -> t res
+
+val initial_count : arith -> est -> est
+
+val is_hopeful : arith -> cand -> bool
+
+val elect_with_quota :
+  arith -> config -> (est -> cand -> bool) -> (est -> cand -> bool) -> string
+  option -> (cand -> bool) -> est -> est
+
+val ge_quota : arith -> est -> cand -> bool
+
+val has_quota_exact : arith -> est -> cand -> bool
+
+val transfer_high_surplus :
+  arith -> config -> (cand list -> est -> est * z option) -> (t -> t -> t ->
+  t res) -> est -> est
+
+val transfer_defeated_one : arith -> config -> z -> est -> est
+
+val low_candidates : arith -> est -> (t * cand list) option
+
+val defeat_low :
+  arith -> config -> (cand list -> est -> est * z option) -> string -> est ->
+  est
+
+val unpend_all : arith -> config -> est -> est
+
+val elect_or_defeat_remaining : arith -> config -> est -> est
+
+val group_tied :
+  arith -> t -> cand list -> t -> cand list -> cand list list -> cand list
+  list
+
+val scan_groups :
+  arith -> t -> z -> cand list list -> t -> z -> nat -> nat option -> nat
+  option
+
+val batch_defeat : arith -> config -> t -> est -> cand list
+
+val nonempty : 'a1 list -> bool
+
+val guard_main : arith -> config -> est -> bool
+
+val bt_simple :
+  arith -> config -> string -> cand list -> est -> est * z option
+
+val droop_quota_eps : arith -> config -> t res
+
+val integer_droop_quota : arith -> config -> t
+
+val start_count : arith -> t res -> est -> est
+
+val cands_of : arith -> est -> z list -> cand list
+
+val transfer_batch : arith -> config -> (cand -> bool) -> est -> est
+
+val wigm_quota : arith -> config -> t res
+
+val wigm_defeat : arith -> config -> est -> est
+
+val wigm : arith -> config -> est cmd
+
+val pending_surplus : arith -> est -> t
+
+val prf_find_batch : arith -> config -> est -> est
+
+val defeat_batch_in_ballot_order : arith -> config -> string -> est -> est
+
+val wigm_prf : arith -> config -> est cmd
+
+val count_complete : arith -> config -> est -> bool
+
+val scot_stage_pick : arith -> bool -> z list -> cand list -> cand option
+
+val scot_search : arith -> bool -> z list -> cand list list -> cand option
+
+val scot_break_tie :
+  arith -> config -> bool -> string -> cand list -> est -> est * z option
+
+val cand_surplus : arith -> est -> cand -> t
+
+val scotland : arith -> config -> est cmd
+
+val gt_quota : arith -> est -> cand -> bool
+
+val cfer_scan :
+  arith -> config -> est -> t -> z -> cand list -> t -> cand list -> cand
+  list -> cand list -> cand list
+
+val cfer_batch : arith -> config -> est -> cand list
+
+val cfer_find_batch : arith -> config -> est -> est
+
+val cfer_transfer_all_pending : arith -> config -> est -> est
+
+val cfer_defeat_low : arith -> config -> est -> est
+
+val cfer : arith -> config -> est cmd
+
+val mpls_keep : arith -> cand -> bool
+
+val mpls_surplus : arith -> bool -> est -> t
+
+val hopeful_with_quota : arith -> bool -> est -> cand list
+
+val mpls_scan :
+  arith -> t -> z -> cand list -> t -> cand list -> cand list -> cand list
+
+val find_certain_losers : arith -> config -> t -> est -> cand list
+
+val ballot_top_undeclared : arith -> est -> ballot -> bool option
+
+val mpls_find_defeats : arith -> config -> est -> est
+
+val mpls_defeat_batch : arith -> config -> est -> est
+
+val mpls_elect_high : arith -> config -> est -> est
+
+val mpls_defeat_low : arith -> config -> est -> est
+
+val mpls : arith -> config -> est cmd
+
+val nonempty' : 'a1 list -> bool
+
+val iS_none : z
+
+val iS_omega : z
+
+val iS_batch : z
+
+val iS_elected : z
+
+val iS_stable : z
+
+val iS_iterate : z
+
+val status_name : z -> string
+
+val count_complete_m : arith -> config -> est -> bool
+
+val omega : arith -> config -> t res
+
+val omega_or0 : arith -> config -> t
+
+val kf_truthy : arith -> cand -> bool
+
+val kf_of : arith -> cand -> t
+
+val he_cands : arith -> est -> cand list
+
+val zero_he_votes : arith -> est -> est
+
+val kw_warren : arith -> t -> t -> t * t
+
+val kw_meek : arith -> t -> t -> t * t
+
+val kt : arith -> config -> t -> t -> t * t
+
+val dist_ballot :
+  arith -> config -> cand list -> t -> z list -> t -> t -> (cand list * t) * t
+
+val dist_eq :
+  arith -> config -> z list -> t -> z list list -> t -> (cand list * t) res
+  -> (cand list * t) res
+
+val distribute_votes : arith -> config -> est -> est
+
+val meek_quota : arith -> config -> est -> t res
+
+val set_quota_r : arith -> est -> t res -> est
+
+val elected_surplus : arith -> est -> t
+
+val update_kfs : arith -> est -> est
+
+val meek_iter_head : arith -> config -> est -> est
+
+val meek_iterate : arith -> config -> est cmd
+
+val zero_cand : arith -> z -> est -> est
+
+val cands_of' : arith -> est -> z list -> cand list
+
+val meek_defeat_batch : arith -> config -> est -> est
+
+val low_within_surplus : arith -> est -> cand list res
+
+val meek_defeat_low :
+  arith -> config -> (string -> string -> string) -> bool -> est -> est
+
+val meek_final : arith -> config -> bool -> est -> est
+
+val init_kfs : arith -> est -> est
+
+val meek_first_prefs : arith -> est -> est
+
+val meek : arith -> config -> est cmd
+
+val dist_ballot_prf :
+  arith -> cand list -> t -> z list -> t -> t -> (cand list * t) * t
+
+val prf_distribute : arith -> est -> est
+
+val prf_quota : arith -> config -> est -> t res
+
+val prf_iterate_step : arith -> config -> est -> est
+
+val meek_prf : arith -> config -> est cmd
+
+val qpq_quota : arith -> config -> est -> t res
+
+val count_complete_q : arith -> config -> est -> bool
+
+val qpq_advance : arith -> est -> ballot -> ballot
+
+val qpq_restart : arith -> est -> est
+
+val qpq_tally : arith -> config -> est -> est
+
+val quo_of : arith -> cand -> t
+
+val max_quo : arith -> cand list -> t option
+
+val min_quo : arith -> cand list -> t option
+
+val qpq_tie : string -> string -> string -> string
+
+val qpq_step : arith -> config -> est -> est
+
+val qpq : arith -> config -> est cmd
+
+type pcand = { pc_cid : z; pc_order : z; pc_tie : z; pc_name : string;
+               pc_nick : string; pc_withdrawn : bool; pc_undeclared : 
+               bool }
+
+type profile = { pr_nseats : z; pr_nballots : z; pr_cands : pcand list;
+                 pr_ballots : (z * z list) list;
+                 pr_eballots : (z * z list list) list }
+
+type rule =
+| RWigm
+| RWigmPrf
+| RScotland
+| RCfer
+| RMpls
+| RMeek
+| RMeekPrf
+| RQpq
+
+type outcome =
+| Done of est * bool
+| Crashed of est * exn
+| OutOfFuel
+
+val v0' : arith -> t
+
+val init_cand : arith -> pcand -> cand
+
+val init_state : arith -> config -> profile -> est
+
+val rule_cmd : arith -> config -> rule -> est cmd
+
+val count_cmd : arith -> config -> rule -> est cmd
+
+val post_check : arith -> config -> est -> bool
+
+val run_count : arith -> config -> positive -> rule -> profile -> outcome
+
 type tok =
 | TI of z
 | TS of string
@@ -494,5 +1065,53 @@ val showb : bool -> string
 val run_rational : z -> z -> z -> z -> z -> z -> z -> z -> z -> string
 
 val run_values : z list -> string
+
+val rd_int : tok list -> (z * tok list) option
+
+val rd_ints : nat -> tok list -> (z list * tok list) option
+
+val rd_cand : tok list -> (pcand * tok list) option
+
+val rd_many :
+  (tok list -> ('a1 * tok list) option) -> nat -> tok list -> ('a1 list * tok
+  list) option
+
+val rd_ballot : tok list -> ((z * z list) * tok list) option
+
+val rd_rank : tok list -> (z list * tok list) option
+
+val rd_eballot : tok list -> ((z * z list list) * tok list) option
+
+val tag_name : tag -> string
+
+val state_name : cstate -> string
+
+val is_wigm : meth -> bool
+
+val code_of : meth -> cstate -> bool option -> string
+
+val lf : string
+
+val showv : arith -> t -> string
+
+val showov : arith -> t option -> string
+
+val show_pend : bool option -> string
+
+val show_csnap : arith -> meth -> csnap -> string
+
+val show_ballots : arith -> (nat * t) list -> string
+
+val show_action : arith -> meth -> action -> string
+
+val show_cids : arith -> cand list -> string
+
+val show_outcome : arith -> meth -> outcome -> string
+
+val rule_of : z -> rule
+
+val meth_of : rule -> meth
+
+val run_count_case : tok list -> string
 
 val run : tok list -> string
